@@ -13,6 +13,8 @@ CLAIMED = {
          "OpcodeOperands read mechanically from its initialiser (checked: never assigned outside init); fmt.Errorf returns non-nil"),
  "C13": ("Root symbol table mechanism: Resolve returns a builtin symbol only for a name that is not disabled, keeps the table invariant (a cached builtin symbol exists only for names that are not disabled) and does not touch the disabled set; DisableBuiltin adds every given name to the disabled set and re-establishes the invariant (loop with quantified invariants over the maps); root and isBuiltinDisabled against the ghost root function. Not decided: Resolve through nested (forked) tables, propagation of the disabled set into module tables and the optimizer's evaluator, the compiler's emission sites of GETBUILTIN.",
          "rootOf is a ghost function defined by axioms over parent links, assumed never reassigned"),
+ "C19": ("Safety sweep (no index, slice, nil, assertion, division, make, map or stdlib-precondition panic for well-formed arguments) of 32 builtin function bodies: cap, copy, delete, len, repeat, sort, sortReverse, error, typeName, bool, int, uint, float, char, string, println, globals, isError and the is* predicates. Not covered: append, bytes, chars, contains, printf, sprintf, :makeArray, the generated argument adapters (zfuncs.go), Call.Get, and the fmt, json, strings and time modules.",
+         "arguments are non-nil Objects (undefined is the singleton); dynamic method calls on Objects of kinds outside the vocabulary return arbitrary results and do not panic; sort.Slice, strconv, fmt assumed panic-free; strings.Repeat/bytes.Repeat preconditions are obligations"),
  "C20": ("Scalar values cross the Go boundary unchanged: ToObject(ToInterface(o)) is o (same type and value, bit equality for floats) for int, uint, float, char, bool, string and undefined; ToInterface(ToObject(v)) is v for int64, uint64, float64, rune, bool, string and nil; int, uint, uintptr, byte and float32 convert to the uGO value with the same numeric value; lemmas over the real ToObject/ToInterface bodies. ToObject, ToObjectAlt and ToInterface are panic-free (safety sweep, nested values through the functions' own contracts). Not decided: round trips of bytes, arrays and maps (need inductive lemmas over nesting), ToObjectAlt value clauses, the numeric helper conversions, error for unsupported types.",
          "registry converters trusted (assumed non-nil and panic-free); sync locks no-ops"),
  "C15": ("Equal and BinaryOp of Int, Uint, Float, Char, Bool, String, Bytes, undefined proved against specEq/specArith/specOrder for all operand values (bit-vector/IEEE semantics), errors are ZeroDivisionError/TypeError and never a panic; symmetry, trichotomy and derived-order lemmas over the spec; xOpUnary. Not decided: arrays/maps/errors Equal, the VM's OpEqual/OpNotEqual arms.",
@@ -33,7 +35,6 @@ NA = {
  "C12": "module store / LOADMODULE-STOREMODULE contracts not built yet",
  "C14": "binding equivalence contracts (initLocals vs xOpCallCompiled) not built yet",
  "C17": "oracle is encoding/json itself; stating it as contracts means formalising that implementation (string/sequence reasoning outside the solvers' reach)",
- "C19": "builtin safety sweep not built yet",
 }
 
 def main():
